@@ -263,10 +263,15 @@ func c13AfterReject(r *rux.Router, paths []string, what string, st *fw.Stats, ad
 }
 
 func c13LightLookups(r *rux.Router, what string, st *fw.Stats, add func(sig, msg string)) {
-	for _, p := range c13ShortPaths[:31] {
+	for i, p := range c13ShortPaths[:31] {
 		st.Evals++
 		if pv := try(func() { r.Match("GET", p) }); pv != nil {
 			add("lookup:panic:match", fmt.Sprintf("%s was accepted by registration, but Match(GET,%q) panicked: %v", what, p, pv))
+		}
+		if i%3 == 0 {
+			if pv := try(func() { r.Match("HEAD", p) }); pv != nil {
+				add("lookup:panic:match", fmt.Sprintf("%s was accepted by registration, but Match(HEAD,%q) panicked: %v", what, p, pv))
+			}
 		}
 	}
 	for _, p := range c13SpecialPaths {
@@ -295,6 +300,7 @@ func c13Lookups(r *rux.Router, paths []string, what string, st *fw.Stats, add fu
 	}
 	for _, p := range paths {
 		do("GET", p)
+		do("HEAD", p) // (served by the GET routes: a lookup path of its own)
 	}
 	for _, p := range c13SpecialPaths {
 		do("GET", p)
